@@ -111,6 +111,21 @@ func (f *Frame) resolveSourceName(name string, h *ssa.BasicBlock, st *State, phi
 		}
 		return mk(f.val(best.X), best.X.Type())
 	}
+	// 3. a local variable kept in memory (named results in functions with defer, address-taken
+	// locals): the Alloc carries the variable name
+	for _, b := range f.fn.Blocks {
+		if !(b == h || b.Dominates(h)) {
+			continue
+		}
+		for _, instr := range b.Instrs {
+			if a, ok := instr.(*ssa.Alloc); ok && a.Comment == name {
+				if _, known := f.locs[a]; known || f.vals[a] != "" {
+					l := f.getLoc(a)
+					return mk(f.load(l, st), a.Type().Underlying().(*types.Pointer).Elem())
+				}
+			}
+		}
+	}
 	return SVal{}, false
 }
 
